@@ -10,17 +10,33 @@
 // lookup ("fam"/"nth" of the case; "pre" = before the round starts) - the model's SwapLeaf step.  stat, lstat, fstatat, statx, open, openat, realpath and read are DEFINED in this
 // executable (they interpose libstdc++'s std::filesystem and the header's own ::open/::read) and forward to libc via
 // dlsym(RTLD_NEXT).
-// Logged per lookup: result class, content tag, tag of the gzip variant, and - second oracle, from the OS - whether the
-// file that holds that tag is a regular file whose realpath lies inside the root of the mode.
+// Logged per lookup: result class, content tag, tag of the gzip variant, and - second oracle, from the OS - whether a
+// regular file (lstat) physically located under the root of the mode held that tag when the lookup started (the root is
+// walked without following links before every lookup that follows a change of the tree).
+//
+// Leaf kinds beyond file / directory / link: the tree holds a named pipe, a unix socket and a link to /dev/null in each
+// root.  A helper thread (feeder) polls the write end of the pipes with O_WRONLY|O_NONBLOCK while a lookup runs (ENXIO
+// until somebody opened the read end): code that opens a pipe does not hang, it receives "TAG:<tag of the pipe>" and the
+// lookup is judged like any other (a pipe's tag is never that of a regular file).  alarm() is the backstop.
+//
+// Histories: a case may carry "hist", one operation between two consecutive lookups on the SAME Assets object:
+// "dirout" (the intermediate directory <root>/dir is moved out of the tree and a symbolic link to the outside directory
+// takes its name), "dirback" (undone), "reload" (Assets::reload()), "none".  The event carries dir = "in" | "out".
 #include "iora/web/assets.hpp"
 #include "vf/exec.hpp"
 #include "vf/trace.hpp"
 
+#include <atomic>
 #include <dlfcn.h>
 #include <fcntl.h>
 #include <map>
+#include <set>
+#include <signal.h>
 #include <stdarg.h>
+#include <sys/socket.h>
 #include <sys/stat.h>
+#include <sys/un.h>
+#include <thread>
 
 using iora::web::Assets;
 using iora::web::GetStaticResult;
@@ -34,8 +50,10 @@ static std::string g_calls;           // families in call order (diagnostics, mo
 static bool g_swapped = false;
 static std::string g_swapTarget, g_swapTo;
 
+static bool g_treeDirty = true;       // the tree changed since the inside-tags of the roots were collected
 static void doSwap()
 {
+  g_treeDirty = true;
   std::string tmp = g_swapTarget + ".swap_tmp";
   ::unlink(tmp.c_str());
   if (::symlink(g_swapTo.c_str(), tmp.c_str()) == 0 && ::rename(tmp.c_str(), g_swapTarget.c_str()) == 0) g_swapped = true;
@@ -265,8 +283,8 @@ static std::string g_root; // absolute, canonical
 struct Node
 {
   const char *path; // relative to g_root
-  char kind;        // 'd' dir, 'f' file, 'l' symlink
-  int tag;          // files
+  char kind;        // 'd' dir, 'f' file, 'l' symlink, 'p' named pipe, 's' unix socket, 'L' symlink to /<to> of the machine
+  int tag;          // files; pipes: what the feeder writes into them
   const char *to;   // symlinks: target relative to g_root
 };
 // keep in step with FS0 in spec/web/AssetPath.tla (the check compares the two lists through `drv_assets tree`)
@@ -287,6 +305,10 @@ static const Node kTree[] = {
   {"site/static/dlink_out", 'l', 0, "outdir"},
   {"site/static/dlink_sib", 'l', 0, "site/static2"},
   {"site/static/link_x", 'l', 0, "site/templates/a"},
+  {"site/static/pipe", 'p', 97, nullptr},
+  {"site/static/link_pipe", 'l', 0, "site/static/pipe"},
+  {"site/static/sock", 's', 0, nullptr},
+  {"site/static/link_null", 'L', 0, "dev/null"},
   {"site/static2", 'd', 0, nullptr},
   {"site/static2/a", 'f', 96, nullptr},
   {"site/templates", 'd', 0, nullptr},
@@ -299,11 +321,33 @@ static const Node kTree[] = {
   {"site/templates/dlink_out", 'l', 0, "outdir"},
   {"site/templates/dlink_sib", 'l', 0, "site/templates2"},
   {"site/templates/link_x", 'l', 0, "site/static/a"},
+  {"site/templates/pipe", 'p', 94, nullptr},
+  {"site/templates/link_pipe", 'l', 0, "site/templates/pipe"},
+  {"site/templates/sock", 's', 0, nullptr},
+  {"site/templates/link_null", 'L', 0, "dev/null"},
   {"site/templates2", 'd', 0, nullptr},
   {"site/templates2/a", 'f', 95, nullptr},
 };
 
-static void computeOsInside();
+static void makeSocket(const std::string &p)
+{
+  // sun_path is short: bind relative to the directory
+  static auto ropen = next<int (*)(const char *, int, ...)>("open");
+  size_t sl = p.rfind('/');
+  int cwd = ropen(".", O_RDONLY | O_DIRECTORY);
+  if (cwd < 0 || ::chdir(p.substr(0, sl).c_str()) != 0) throw std::runtime_error("socket: chdir " + p);
+  int s = ::socket(AF_UNIX, SOCK_STREAM, 0);
+  struct sockaddr_un a;
+  memset(&a, 0, sizeof a);
+  a.sun_family = AF_UNIX;
+  snprintf(a.sun_path, sizeof a.sun_path, "%s", p.substr(sl + 1).c_str());
+  ::unlink(a.sun_path);
+  int rc = s < 0 ? -1 : ::bind(s, (struct sockaddr *)&a, sizeof a);
+  if (s >= 0) ::close(s);
+  if (::fchdir(cwd) != 0) rc = -1;
+  ::close(cwd);
+  if (rc != 0) throw std::runtime_error("socket: bind " + p);
+}
 static void writeFile(const std::string &p, int tag)
 {
   FILE *f = fopen(p.c_str(), "w");
@@ -318,10 +362,18 @@ static void makeNode(const Node &n)
     fs::create_directories(p);
   else if (n.kind == 'f')
     writeFile(p, n.tag);
+  else if (n.kind == 'p')
+  {
+    ::unlink(p.c_str());
+    if (::mkfifo(p.c_str(), 0644) != 0) throw std::runtime_error("mkfifo " + p);
+  }
+  else if (n.kind == 's')
+    makeSocket(p);
   else
   {
     ::unlink(p.c_str());
-    if (::symlink((g_root + "/" + n.to).c_str(), p.c_str()) != 0) throw std::runtime_error("symlink " + p);
+    std::string to = n.kind == 'L' ? std::string("/") + n.to : g_root + "/" + n.to;
+    if (::symlink(to.c_str(), p.c_str()) != 0) throw std::runtime_error("symlink " + p);
   }
 }
 static void buildTree(const std::string &root)
@@ -331,7 +383,7 @@ static void buildTree(const std::string &root)
   fs::create_directories(root);
   g_root = fs::canonical(root).string();
   for (auto &n : kTree) makeNode(n);
-  computeOsInside();
+  g_treeDirty = true;
 }
 static void restoreNode(const std::string &rel)
 {
@@ -341,6 +393,7 @@ static void restoreNode(const std::string &rel)
       std::string p = g_root + "/" + rel;
       ::unlink(p.c_str());
       makeNode(n);
+      g_treeDirty = true;
     }
 }
 static int tagOf(std::string_view bytes)
@@ -348,36 +401,81 @@ static int tagOf(std::string_view bytes)
   if (bytes.size() < 5 || bytes.substr(0, 4) != "TAG:") return -1;
   return atoi(std::string(bytes.substr(4)).c_str());
 }
-// second oracle, from the OS: is the file that holds `tag` a regular file whose realpath lies inside the root?
-// Evaluated on the pristine tree (a swap only ever adds a link to the secret, which has its own tag), once per root.
-static std::map<std::string, std::map<int, bool>> g_osInside;
-static void computeOsInside()
+// second oracle, from the OS: the tags held by regular files (lstat: S_ISREG, nothing followed) physically located under
+// each root right now.  Collected before a lookup starts, whenever the tree changed since the last collection.
+static std::map<std::string, std::set<int>> g_osInside;
+static void walkInside(const std::string &dir, std::set<int> &out)
 {
-  static auto rp = next<char *(*)(const char *, char *)>("realpath");
-  static auto ls = next<int (*)(const char *, struct stat *)>("lstat");
-  for (const char *rootRel : {"site/static", "site/templates"})
-    for (auto &n : kTree)
-      if (n.kind == 'f')
+  std::error_code ec;
+  for (fs::directory_iterator it(dir, ec), end; !ec && it != end; it.increment(ec))
+  {
+    fs::file_status st = it->symlink_status(ec);
+    if (ec) break;
+    if (fs::is_directory(st))
+      walkInside(it->path().string(), out);
+    else if (fs::is_regular_file(st))
+    {
+      char buf[64] = {0};
+      FILE *f = fopen(it->path().c_str(), "r");
+      if (f)
       {
-        char buf[PATH_MAX];
-        std::string p = g_root + "/" + n.path;
-        struct stat st;
-        bool in = false;
-        if (rp(p.c_str(), buf) && ls(buf, &st) == 0 && S_ISREG(st.st_mode))
-        {
-          char rb[PATH_MAX];
-          std::string base = std::string(rp((g_root + "/" + rootRel).c_str(), rb) ? rb : "?") + "/";
-          in = std::string(buf).compare(0, base.size(), base) == 0;
-        }
-        g_osInside[rootRel][n.tag] = in;
+        size_t n = fread(buf, 1, sizeof buf - 1, f);
+        fclose(f);
+        int t = tagOf(std::string_view(buf, n));
+        if (t >= 0) out.insert(t);
       }
+    }
+  }
+}
+static void collectOsInside()
+{
+  if (!g_treeDirty) return;
+  for (const char *rootRel : {"site/static", "site/templates"})
+  {
+    g_osInside[rootRel].clear();
+    walkInside(g_root + "/" + rootRel, g_osInside[rootRel]);
+  }
+  g_treeDirty = false;
 }
 static bool osInside(int tag, const std::string &rootRel)
 {
   if (tag == 21 || tag == 22) return true; // embedded in the binary, not a file
-  auto &m = g_osInside[rootRel];
-  auto it = m.find(tag);
-  return it != m.end() && it->second;
+  return g_osInside[rootRel].count(tag) != 0;
+}
+
+// ------------------------------------------------------------------------------------------------ pipes: the feeder
+static std::atomic<bool> g_inLookup{false}, g_stopFeeder{false};
+static std::atomic<int> g_fed{0}; // times a pipe of the tree was found open for reading during the current lookup
+static void feeder()
+{
+  static auto ropen = next<int (*)(const char *, int, ...)>("open");
+  std::vector<std::pair<std::string, int>> pipes;
+  for (auto &n : kTree)
+    if (n.kind == 'p') pipes.emplace_back(g_root + "/" + n.path, n.tag);
+  while (!g_stopFeeder.load())
+  {
+    if (g_inLookup.load() && g_fed.load() < 8)
+      for (auto &p : pipes)
+      {
+        int fd = ropen(p.first.c_str(), O_WRONLY | O_NONBLOCK | O_CLOEXEC); // ENXIO unless a reader holds the pipe open
+        if (fd >= 0)
+        {
+          std::string t = "TAG:" + std::to_string(p.second) + "\n";
+          ssize_t w = ::write(fd, t.data(), t.size());
+          (void)w;
+          ::close(fd);
+          ++g_fed;
+        }
+      }
+    ::usleep(300);
+  }
+}
+static void onAlarm(int)
+{
+  static const char m[] = "drv_assets: a lookup blocked (watchdog)\n";
+  ssize_t w = ::write(2, m, sizeof m - 1);
+  (void)w;
+  _exit(3);
 }
 
 static std::string segText(const std::string &id)
@@ -447,6 +545,16 @@ static std::string runCase(const std::string &line)
   const std::string rootRel = (mode == "templates") ? "site/templates" : "site/static";
   int rounds = (int)c["rounds"].i;
   if (rounds < 1) rounds = 1;
+  std::vector<std::string> hist;
+  for (auto &h : c["hist"].a) hist.push_back(h.s);
+  const std::string swapDir = g_root + "/" + rootRel + "/dir", stashDir = g_root + "/stash_dir";
+  bool dirOut = false;
+  auto dirBack = [&]()
+  {
+    if (::unlink(swapDir.c_str()) != 0 || ::rename(stashDir.c_str(), swapDir.c_str()) != 0) throw std::runtime_error("dirback failed");
+    dirOut = false;
+    g_treeDirty = true;
+  };
   std::unique_ptr<Assets> a;
   if (mode == "fs_cached" || mode == "templates")
     a.reset(new Assets(Assets::fromDirectory(g_root + "/site", false)));
@@ -474,6 +582,24 @@ static std::string runCase(const std::string &line)
   g_swapTo = g_root + "/secret";
   for (int r = 1; r <= rounds; ++r)
   {
+    if (r >= 2 && (size_t)(r - 2) < hist.size())
+    {
+      const std::string &op = hist[r - 2];
+      if (op == "dirout" && !dirOut)
+      {
+        if (::rename(swapDir.c_str(), stashDir.c_str()) != 0 || ::symlink((g_root + "/outdir").c_str(), swapDir.c_str()) != 0)
+          throw std::runtime_error("dirout failed");
+        dirOut = true;
+        g_treeDirty = true;
+      }
+      else if (op == "dirback" && dirOut)
+        dirBack();
+      else if (op == "reload")
+        a->reload();
+      else if (op != "none")
+        throw std::runtime_error("history operation not applicable: " + op);
+    }
+    collectOsInside();
     g_count.clear();
     g_calls.clear();
     g_nth = 0;
@@ -487,6 +613,9 @@ static std::string runCase(const std::string &line)
         g_nth = nth;
       }
     }
+    g_fed = 0;
+    ::alarm(300);
+    g_inLookup = true;
     g_armed = true;
     Outcome o;
     std::string what;
@@ -500,15 +629,18 @@ static std::string runCase(const std::string &line)
       what = ex.what();
     }
     g_armed = false;
+    g_inLookup = false;
+    ::alarm(0);
     bool osIn = o.res == "found" ? osInside(o.tag, rootRel) : true;
     bool gzIn = (o.res == "found" && o.gz != 0) ? osInside(o.gz, rootRel) : true;
     vf::Ev e("Lookup");
     e.str("mode", mode).raw("segs", segsJson).str("swap", swap).i("sround", swapRound).str("fam", point).i("nth", nth);
     e.i("round", r).b("swapped", g_swapped).str("res", o.res).i("tag", o.tag).i("gz", o.gz).b("os_in", osIn && gzIn);
-    e.str("calls", g_calls);
+    e.str("dir", dirOut ? "out" : "in").i("fed", g_fed.load()).str("calls", g_calls);
     out += e.done() + "\n";
   }
   if (g_swapped || swap != "none") restoreNode(target);
+  if (dirOut) dirBack();
   return out;
 }
 
@@ -517,6 +649,7 @@ int main(int argc, char **argv)
   if (argc >= 3 && std::string(argv[1]) == "probe")
   {
     buildTree(argv[2]);
+    ::signal(SIGALRM, onAlarm);
     for (const char *m : {"fs_cached", "fs_perreq", "embedded_ext", "templates"})
     {
       std::string line = std::string("{\"mode\":\"") + m + "\",\"segs\":[\"dir\",\"a\"],\"swap\":\"none\",\"round\":0,\"fam\":\"pre\",\"nth\":0,\"target\":[],\"rounds\":2}";
@@ -536,6 +669,8 @@ int main(int argc, char **argv)
     return 2;
   }
   buildTree(argv[4]);
+  ::signal(SIGALRM, onAlarm);
+  std::thread feed(feeder);
   std::vector<std::string> lines = vf::readLines(argv[2]);
   FILE *out = fopen(argv[3], "w");
   long n = 0;
@@ -554,6 +689,8 @@ int main(int argc, char **argv)
     ++n;
   }
   fclose(out);
+  g_stopFeeder = true;
+  feed.join();
   std::error_code ec;
   fs::remove_all(argv[4], ec);
   printf("cases=%ld\n", n);
